@@ -736,28 +736,34 @@ fn refresh_coordinate_keys(
 
                 // Add the most recent secrets from the MSK that do not belong
                 // to the USK at the front of the updated chain (cf Invariant.1)
+                let mut is_first_secret_known = false;
                 for (_, msk_secret) in msk_secrets.by_ref() {
                     if msk_secret == &first_secret {
+                        is_first_secret_known = true;
                         break;
                     }
                     updated_chain.push_back(msk_secret.clone());
                 }
 
-                // Push the first USK secret since it was consumed from the USK
-                // chain iterator.
-                updated_chain.push_back(first_secret);
+                // If the most recent USK secret does not belong to the MSK
+                // anymore, none of the older ones does (cf Invariant.2).
+                if is_first_secret_known {
+                    // Push the first USK secret since it was consumed from the
+                    // USK chain iterator.
+                    updated_chain.push_back(first_secret);
 
-                // Push the secrets already stored in the USK that also belong
-                // to the MSK keypairs.
-                for coordinate_sk in usk_secrets {
-                    if let Some((_, msk_secret)) = msk_secrets.next() {
-                        if msk_secret == &coordinate_sk {
-                            updated_chain.push_back(msk_secret.clone());
-                            continue;
+                    // Push the secrets already stored in the USK that also belong
+                    // to the MSK keypairs.
+                    for coordinate_sk in usk_secrets {
+                        if let Some((_, msk_secret)) = msk_secrets.next() {
+                            if msk_secret == &coordinate_sk {
+                                updated_chain.push_back(msk_secret.clone());
+                                continue;
+                            }
                         }
+                        // No more shared secret after the first divergence (cf Invariant.2).
+                        break;
                     }
-                    // No more shared secret after the first divergence (cf Invariant.2).
-                    break;
                 }
                 Some((coordinate, updated_chain))
             })
